@@ -269,7 +269,8 @@ def gen(max_rows=10):
         fr = draw(F.frame(min_rows=2, max_rows=max_rows, nulls=draw(st.booleans())))
         fc = draw(F.formulas(max_terms=3, max_factors=3, polyraw=False))
         cols_used = sorted(used_cols(fc)) or ["x"]
-        col = draw(st.sampled_from(cols_used + cols_used + ["A", "x"]))
+        cat_used = [c for c in cols_used if c in F.CAT_COLS]
+        col = draw(st.sampled_from(cols_used + cols_used + cat_used * 3 + ["A", "x"]))
         is_cat = col in F.CAT_COLS
         kinds = ["cat-to-num", "lose-levels", "lose-levels", "unseen-observed", "unseen-observed", "unseen-declared", "none"] if is_cat else ["num-to-text", "num-to-text", "none"]
         mut = {"kind": draw(st.sampled_from(kinds)), "col": col, "pick": draw(st.integers(0, 5)), "single": draw(st.booleans()),
@@ -290,4 +291,4 @@ BUDGET_S = {"quick": 70, "thorough": 1500}
 
 
 def campaigns(tier, shard=0, nshards=1):
-    return [Campaign("reuse", gen(10 if tier == "quick" else 18), check_case, 1200 if tier == "quick" else 10000)]
+    return [Campaign("reuse", gen(10 if tier == "quick" else 18), check_case, 1600 if tier == "quick" else 10000)]
